@@ -96,8 +96,18 @@ impl SocketRecv for ReqSocket {
                             // Non-message frames should be ignored by the caller
                             Err(ZmqError::Other("Received non-message frame"))
                         }
-                        Some(Err(error)) => Err(error.into()),
-                        None => Err(ZmqError::NoMessage),
+                        Some(Err(error)) => {
+                            // The connection failed: forget the peer, so that later sends are
+                            // not routed to it (the table entry must be released first).
+                            drop(peer);
+                            self.backend.peer_disconnected(&peer_id);
+                            Err(error.into())
+                        }
+                        None => {
+                            drop(peer);
+                            self.backend.peer_disconnected(&peer_id);
+                            Err(ZmqError::NoMessage)
+                        }
                     }
                 } else {
                     self.current_request = None;
